@@ -200,7 +200,7 @@ func (c CB) String() string {
 	return "absent"
 }
 
-var panicKindNames = []string{"string", "error", "int", "pointer", "slice", "struct", "runtime-error", "error-with-ExitCode-method", "named-int", "stringer"}
+var panicKindNames = []string{"string", "error", "int", "pointer", "slice", "struct", "runtime-error", "error-with-ExitCode-method", "named-int", "stringer", "typed-nil-error", "nil-slice"}
 var exitCodes = []int{0, 1, 2, 3, 64, 255, -1, 127, 256, -128}
 
 type CmdDecl struct {
@@ -511,6 +511,12 @@ func (inst *Instance) panicValue(ev string, kind int) interface{} {
 		return namedInt(7000 + len(inst.Proc.Events))
 	case 9:
 		return stringerVal{ev}
+	case 10:
+		var e *exitishError // a nil pointer inside a non-nil interface value: still a raised value
+		return error(e)
+	case 11:
+		var none []string
+		return none
 	}
 	return panicStruct{2, ev}
 }
@@ -518,8 +524,18 @@ func (inst *Instance) panicValue(ev string, kind int) interface{} {
 // exitishError has the shape of *exec.ExitError: an error with an ExitCode method. It is not a request to exit.
 type exitishError struct{ code int }
 
-func (e *exitishError) Error() string { return "child process failed" }
-func (e *exitishError) ExitCode() int { return e.code }
+func (e *exitishError) Error() string {
+	if e == nil {
+		return "typed nil error"
+	}
+	return "child process failed"
+}
+func (e *exitishError) ExitCode() int {
+	if e == nil {
+		return 0
+	}
+	return e.code
+}
 
 type namedInt int
 
